@@ -151,6 +151,50 @@ def run(ctx):
             if d:
                 v.broken_tie("decodeValue differs from model on multi-byte damage: impl %s model %s" % (d[1], d[2]),
                              {"script": [case[d[0]]], "impl": [d[1]], "model": [d[2]]})
+    # the records in use by a session: what the client stored stays intact while it resends from it (also with a Persistence
+    # that hands out its own memory), and a record that was damaged is never used - it is reported at AdoptSession, or where
+    # the client first needs it
+    from . import sess, sesscheck as SC
+    from .c16 import mon_damage
+    r = ctx.rng
+    sscripts = []
+    for k in range(6 if ctx.quick() else 60):
+        alias = ["alias"] if k % 2 == 0 else []
+        sc = alias + ["init 636c69 0 4 4", "dial ok 20020000", "feed block", "rs", "pal 0 61 31", "peo 0 62 32", "store",
+                      "feed eof", "rs", "dial ok 20020000", "feed 5002c000 eof", "rs", "rs", "store",
+                      "dial ok 20020000", "feed block", "rs", "store"]
+        sscripts.append(sc)
+        off, val = r.randrange(0, 15), r.randrange(1, 256)
+        sscripts.append(["init 636c69 0 4 4", "damage alter 0 %d %d" % (off, val), "store", "dial ok 20020000", "feed block", "rs", "rs"])
+        sscripts.append(["init 636c69 0 4 4", "dial ok 20020000", "feed 34050001780009 block", "rs", "rs", "store",
+                         "damage alter 10009 %d %d" % (off % 12, val), "store", "adopt 0 4 4", "dial ok 20020100", "feed 3c050001780009 block", "rs", "rs"])
+    stats["session_scripts"] = len(sscripts)
+    for sc, (io, mo) in zip(sscripts, sess.run_session(ctx, sscripts)):
+        tr = SC.parse_trace(io, sc)
+        damaged, hits = set(), []
+        for i, (op, lines) in enumerate(tr):
+            f = op.split()
+            if f and f[0] == "damage":
+                damaged.add(int(f[2], 16))
+            for l in lines:
+                if l.startswith("store"):
+                    for ent in l.split()[1:]:
+                        kk, vv, _ = ent.split(":")
+                        if vv == "corrupt" and int(kk, 16) not in damaged:
+                            hits.append(("record-changed", "record %s fails its integrity check although nothing damaged it: the client modified what it had stored (op %d `%s`)" % (kk, i, op[:30])))
+                        if vv == "corrupt":
+                            damaged.add(int(kk, 16))
+                if l.startswith("ev w ") and l.split()[3].startswith("10") and 0 in damaged and any(
+                        x.startswith("store") and " 0:corrupt:" in x + " " for _, ls in tr[:i] for x in ls):
+                    hits.append(("damaged-record-used", "the client identifier record fails its integrity check, yet the client connects: %s" % l[:80]))
+        hits += [h for h in mon_damage(tr, sc) if h[0].startswith("unreported") and not h[0].endswith("clientid")]
+        for sig, what in hits[:1]:
+            v.violation("C15:" + sig, what, {"port": "session", "script": sc, "impl": io[-14:]})
+        if not hits and not sess.unsupported(mo):
+            d = C.first_diff(io, mo)
+            if d:
+                v.broken_tie("implementation and model disagree (session port): impl `%s` model `%s`" % (d[1][:100], d[2][:100]),
+                             {"port": "session", "script": sc, "impl": io[-14:], "model": mo[-14:]})
     samples.append({"mutated_decode": cases[len(records)][0][:80] if len(cases) > len(records) else ""})
     ev = sum(stats[k] for k in ("enc", "dec_roundtrip", "dec_mutated", "dec_truncated", "multi_byte_tried"))
     cov = C.proof_coverage(ctx, {
